@@ -26,6 +26,7 @@ func main() {
 	explain := flag.String("explain", "", "print a report file")
 	noControls := flag.Bool("no-controls", false, "do not inject positive controls (debug)")
 	verbose := flag.Bool("v", false, "print every non-ok obligation")
+	all := flag.Bool("all", false, "print every obligation")
 	flag.Parse()
 
 	if *explain != "" {
@@ -137,6 +138,11 @@ func main() {
 		}
 		for _, b := range out.Broken {
 			fmt.Printf("  broken: %s\n", b)
+		}
+	}
+	if *all {
+		for _, o := range out.Obs {
+			fmt.Printf("  %s [%s] %s at %s: %s\n", o.Verdict, o.Rule, o.Key, o.Pos, o.Msg)
 		}
 	}
 	if *verbose {
